@@ -1,5 +1,5 @@
-(* C46 -- theorems about the model of the code as it is when ~MFrontLock posts (selected by the check when the
-   traces of the real code contain a destructor post). *)
+(* C46 -- theorems about the model of the code whose ~MFrontLock always posts (pinned tree, defect F13); selected by
+   the check when the traces of the real code contain a destructor post by a process that does not hold the lock. *)
 From Coq Require Import List Arith.
 From C46 Require Import C46Spec C46Model C46Proofs.
 Import ListNotations.
